@@ -78,6 +78,9 @@ def build_harness(module, prog, race=False):
     # go.sum is derived from the repository's own (nothing can be fetched)
     with open(src_sum) as f:
         want = f.read()
+    if module == "cli":
+        with open(os.path.join(REPO, "go.sum")) as f:
+            want += f.read()
     extra = os.path.join(mdir, "go.sum.extra")
     if os.path.exists(extra):
         want += open(extra).read()
